@@ -60,23 +60,35 @@ Proof.
   - exists T5, [], "foo", [2%Z]. split; [reflexivity|discriminate].
 Qed.
 
-(** fresh: S.C.w = 7 (in place: S[1] is kept, its values go); S.foo.formula = x * i deletes S[..] and
-    T[5] (built from S); the old handle is dead until the instance is requested again *)
+(** fresh: S.C.w = 7 deletes S[1], S[3] and T[5] (each contains a copy of S.C: DynamicBase.on_namespace_change
+    -> clear_subs_rootitems); the old handle is dead until the instance is requested again and then serves the
+    new value; S.foo.formula = x * i likewise *)
 Definition st2 := run 100 st1 [OEval (S12, []) "bar" []; OSetRef ["S"; "C"] "w" 7%Z].
-Definition st3 := run 100 st2 [OSetFormula ["S"] "foo" {| cd_params := ["x"]; cd_body := EBin OMul (EName "x") (EName "i") |}].
+Definition st2' := run 100 st2 [OGetItem S_ [1%Z; 2%Z] []; OGetItem ((["T"], []), []) [5%Z] []].
+Definition st3 := run 100 st2' [OSetFormula ["S"] "foo" {| cd_params := ["x"]; cd_body := EBin OMul (EName "x") (EName "i") |}].
 Example ex_fresh :
-  map i_key (st_live st2) = [T5; S32; S12]
-  /\ snd (step 100 st2 (OEval (S12, []) "bar" [])) = OVal 48%Z
+  st_live st2 = []
+  /\ snd (step 100 st2 (OEval (S12, []) "bar" [])) = ODeleted
+  /\ map i_key (st_live st2') = [T5; S12]
+  /\ snd (step 100 st2' (OEval (S12, []) "bar" [])) = OVal 48%Z
   /\ st_live st3 = []
   /\ snd (step 100 st3 (OEval (S12, []) "bar" [])) = ODeleted
   /\ snd (step 100 (run 100 st3 [OGetItem S_ [1%Z; 2%Z] []]) (OEval (S12, []) "bar" [])) = OVal 18%Z.
 Proof. vm_compute. repeat split. Qed.
 
-(** what the ideal model demands and the pinned tree does not do (finding D16): a new reference in the
-    child S.C deletes every live instance that contains a copy of S.C (S[1], S[3], T[5]) *)
-Example ex_ideal_D16 :
+(** a new reference in the child S.C deletes every live instance that contains a copy of S.C (S[1], S[3],
+    T[5]); the pinned tree did not do that (finding D16, repaired by 76f1b96) *)
+Example ex_new_ref_child :
   map i_key (st_live (run 100 st1 [OSetRef ["S"; "C"] "z" 3%Z])) = [].
 Proof. vm_compute. reflexivity. Qed.
+
+(** edit_discards: st1 holds three instances with a copy of S.C; the change of S.C.w is accepted and leaves none *)
+Example ex_edit_discards :
+  edited_space (OSetRef ["S"; "C"] "w" 7%Z) = Some ["S"; "C"]
+  /\ snd (step 100 st1 (OSetRef ["S"; "C"] "w" 7%Z)) = ODone
+  /\ List.length (filter (has_dynsub ["S"; "C"]) (st_live st1)) = 3
+  /\ existsb (has_dynsub ["S"; "C"]) (st_live (fst (step 100 st1 (OSetRef ["S"; "C"] "w" 7%Z)))) = false.
+Proof. vm_compute. repeat split. Qed.
 
 (** the spelling lemmas apply: S(1, 2) = S(1, j=2) = S(1) for the signature (i, j=2) *)
 Example ex_spellings :
